@@ -503,6 +503,14 @@ func checkProperty(prop, tier string, seed uint64, runs, budget, workers int, re
 	tmp := mkScratch("verif-run-")
 
 	if replay != "" {
+		if b, err := os.ReadFile(replay); err == nil && bytes.Contains(b, []byte(`"clause": "process-crash"`)) {
+			if fe := replayFatal(bi, in, replay, tmp, time.Duration(hangSeconds())*time.Second); fe != "" {
+				fmt.Printf("VIOLATION property=%s replay=%s\n", prop, replay)
+				return 1
+			}
+			fmt.Println("replay: the process was not aborted")
+			return 0
+		}
 		if b, err := os.ReadFile(replay); err == nil && bytes.Contains(b, []byte(`"clause": "hang"`)) {
 			if replayHangs(bi, in, replay, tmp, time.Duration(hangSeconds())*time.Second) {
 				fmt.Printf("VIOLATION property=%s replay=%s\n", prop, replay)
@@ -606,6 +614,7 @@ func checkProperty(prop, tier string, seed uint64, runs, budget, workers int, re
 	per := (runs + workers - 1) / workers
 	crashed := []string{}
 	var hung []uint64
+	var fatals []fatalRun
 	hangLimit := time.Duration(hangSeconds()) * time.Second
 	if in.Hang > hangSeconds() && os.Getenv("VERIF_HANG_SECONDS") == "" {
 		hangLimit = time.Duration(in.Hang) * time.Second // one run of this property legitimately takes long (e.g. a whole offset enumeration)
@@ -709,6 +718,15 @@ func checkProperty(prop, tier string, seed uint64, runs, budget, workers int, re
 			return k
 		}
 		if err != nil {
+			// the Go runtime aborts the process on errors that no recover() can catch (every goroutine blocked
+			// for ever, stack exhaustion, …): for a property that promises termination without crashing that is
+			// a candidate violation of the run in progress, to be confirmed alone; otherwise trouble
+			if fe := fatalErrorOf(stderr.String()); fe != "" && b >= 0 && livenessProps[prop] {
+				mu.Lock()
+				fatals = append(fatals, fatalRun{uint64(b), fe})
+				mu.Unlock()
+				return -(b + 2) // tell the caller where to resume
+			}
 			mu.Lock()
 			crashed = append(crashed, fmt.Sprintf("worker %d exited: %v (run in progress: %d)\n%s", wi, err, b, tail(stderr.String(), 30)))
 			mu.Unlock()
@@ -722,12 +740,16 @@ func checkProperty(prop, tier string, seed uint64, runs, budget, workers int, re
 			from, count := uint64(wi), per
 			for gen := 0; count > 0 && gen < 20; gen++ {
 				h := runWorker(wi, from, count, gen)
-				if h < 0 {
+				if h == -1 {
 					return
 				}
-				mu.Lock()
-				hung = append(hung, uint64(h))
-				mu.Unlock()
+				if h < -1 { // the process died with a fatal runtime error in run -(h+2): resume after it
+					h = -(h + 2)
+				} else {
+					mu.Lock()
+					hung = append(hung, uint64(h))
+					mu.Unlock()
+				}
 				done := int((uint64(h)-from)/uint64(workers)) + 1
 				from, count = uint64(h)+uint64(workers), count-done
 				if time.Now().After(deadline) {
@@ -763,6 +785,27 @@ func checkProperty(prop, tier string, seed uint64, runs, budget, workers int, re
 		}
 		founds = append(founds, found{h, caseJSON, v})
 		hangsConfirmed++
+	}
+	// a run during which the process died with a fatal runtime error: confirmed when it dies again alone
+	sort.Slice(fatals, func(i, j int) bool { return fatals[i].run < fatals[j].run })
+	for fi, fr := range fatals {
+		if fi >= 3 {
+			break
+		}
+		gen := exec.Command(bi.Worker, "gen", "--prop", prop, "--seed", fmt.Sprint(seed), "--tier", tier, "--from", fmt.Sprint(fr.run))
+		caseJSON, err := gen.Output()
+		if err != nil {
+			infra("cannot regenerate run %d: %v", fr.run, err)
+		}
+		v := sim.Violation{Prop: prop, Clause: "process-crash", Sig: fr.what, Detail: fmt.Sprintf("during run %d the process was aborted by the Go runtime: %s", fr.run, fr.what)}
+		p := writeReplay(prop, seed, fr.run, caseJSON, v)
+		if again := replayFatal(bi, in, p, tmp, hangLimit); again == fr.what {
+			founds = append(founds, found{fr.run, caseJSON, v})
+			hangsConfirmed++
+		} else {
+			fmt.Fprintf(os.Stderr, "check: run %d: the process was aborted (%s) inside a long-lived worker but not when the run is executed alone\n", fr.run, fr.what)
+			hung = append(hung, fr.run)
+		}
 	}
 	if len(hung) >= 3 && hangsConfirmed == 0 {
 		// several runs stopped making progress inside a long-lived worker but each finishes when executed alone:
@@ -878,6 +921,45 @@ func writeReplay(prop string, seed, runIdx uint64, c json.RawMessage, v sim.Viol
 	return p
 }
 
+type fatalRun struct {
+	run  uint64
+	what string
+}
+
+// fatalErrorOf extracts the Go runtime's fatal error line from a worker's stderr ("" if none).
+func fatalErrorOf(stderr string) string {
+	for _, ln := range strings.Split(stderr, "\n") {
+		if strings.HasPrefix(ln, "fatal error: ") {
+			return strings.TrimSpace(strings.TrimPrefix(ln, "fatal error: "))
+		}
+		if strings.HasPrefix(ln, "runtime: goroutine stack exceeds") {
+			return "stack overflow"
+		}
+	}
+	return ""
+}
+
+// replayFatal executes a case alone and returns the fatal runtime error it dies with ("" if it does not).
+func replayFatal(bi *buildInfo, in *info, file, tmp string, limit time.Duration) string {
+	cmd := exec.Command(bi.Worker, "replay", "--file", file, "--tmp", filepath.Join(tmp, "fatal"))
+	cmd.Env = append(os.Environ(), workerEnv(tmp, in.Flavor == "race")...)
+	var stderr bytes.Buffer
+	cmd.Stderr = &stderr
+	if err := cmd.Start(); err != nil {
+		return ""
+	}
+	done := make(chan error, 1)
+	go func() { done <- cmd.Wait() }()
+	select {
+	case <-done:
+		return fatalErrorOf(stderr.String())
+	case <-time.After(limit):
+		cmd.Process.Kill()
+		<-done
+		return ""
+	}
+}
+
 // livenessProps: properties whose statement includes termination.
 var livenessProps = map[string]bool{"C06": true}
 
@@ -911,7 +993,7 @@ func replayHangs(bi *buildInfo, in *info, file, tmp string, limit time.Duration)
 // result in a fresh process and returns the replay file.
 func minimiseAndReplay(bi *buildInfo, in *info, prop string, seed uint64, f found, tmp string) (string, bool) {
 	orig := writeReplay(prop, seed, f.Run, f.Case, f.V)
-	if f.V.Clause == "hang" {
+	if f.V.Clause == "hang" || f.V.Clause == "process-crash" {
 		// already confirmed by running alone; shrinking a non-terminating case would need a timeout per candidate
 		return orig, true
 	}
